@@ -98,16 +98,17 @@ package geom
 //@   requires EnvOK(e) && fn != nil
 //@   ensures result.nonEmpty <==> e.nonEmpty
 
+//@ pred XYsFin(xys) = forall k :: 0 <= k && k < len(xys) ==> XYFin(xys[k])
 //@ func NewEnvelope
 //@   mode order
-//@   requires forall k :: 0 <= k && k < len(xys) ==> XYFin(xys[k])
-//@   ensures EnvOK(result)
 //@   ensures result.nonEmpty <==> len(xys) > 0
-//@   ensures forall k :: 0 <= k && k < len(xys) ==> InEnv(result, xys[k])
-//@   ensures len(xys) > 0 ==> (exists k :: 0 <= k && k < len(xys) && result.min.X == xys[k].X) && (exists k :: 0 <= k && k < len(xys) && result.min.Y == xys[k].Y) && (exists k :: 0 <= k && k < len(xys) && result.max.X == xys[k].X) && (exists k :: 0 <= k && k < len(xys) && result.max.Y == xys[k].Y)
-//@   loop 0 invariant -1 <= rangeindex && rangeindex < len(xys) && EnvOK(env) && (env.nonEmpty <==> rangeindex >= 0)
-//@   loop 0 invariant forall k :: 0 <= k && k <= rangeindex ==> InEnv(env, xys[k])
-//@   loop 0 invariant rangeindex >= 0 ==> (exists k :: 0 <= k && k <= rangeindex && env.min.X == xys[k].X) && (exists k :: 0 <= k && k <= rangeindex && env.min.Y == xys[k].Y) && (exists k :: 0 <= k && k <= rangeindex && env.max.X == xys[k].X) && (exists k :: 0 <= k && k <= rangeindex && env.max.Y == xys[k].Y)
+//@   ensures XYsFin(xys) ==> EnvOK(result)
+//@   ensures XYsFin(xys) ==> forall k :: 0 <= k && k < len(xys) ==> InEnv(result, xys[k])
+//@   ensures XYsFin(xys) && len(xys) > 0 ==> (exists k :: 0 <= k && k < len(xys) && result.min.X == xys[k].X) && (exists k :: 0 <= k && k < len(xys) && result.min.Y == xys[k].Y) && (exists k :: 0 <= k && k < len(xys) && result.max.X == xys[k].X) && (exists k :: 0 <= k && k < len(xys) && result.max.Y == xys[k].Y)
+//@   loop 0 invariant -1 <= rangeindex && rangeindex < len(xys) && (env.nonEmpty <==> rangeindex >= 0)
+//@   loop 0 invariant XYsFin(xys) ==> EnvOK(env)
+//@   loop 0 invariant XYsFin(xys) ==> forall k :: 0 <= k && k <= rangeindex ==> InEnv(env, xys[k])
+//@   loop 0 invariant XYsFin(xys) && rangeindex >= 0 ==> (exists k :: 0 <= k && k <= rangeindex && env.min.X == xys[k].X) && (exists k :: 0 <= k && k <= rangeindex && env.min.Y == xys[k].Y) && (exists k :: 0 <= k && k <= rangeindex && env.max.X == xys[k].X) && (exists k :: 0 <= k && k <= rangeindex && env.max.Y == xys[k].Y)
 
 // ---- envelope algebra (closed-interval laws), proved over the real methods ----
 
